@@ -216,6 +216,49 @@ M("c10-str-reserved", "C10", "str() hands out reserved-but-empty storage again (
 M("c10-no-overflow-abort", "C10", "insert no longer aborts on an unrepresentable length (the repaired defect)",
   (ST, "        if (len > SIZE_MAX - size) {\n            /* the resulting length cannot be represented */\n            abort();\n        }\n", ""))
 
+# ----------------------------------------------------------------- C05
+MM = "src/memory.c"
+MH = "include/cstl/memory.h"
+M("c05-last-owner-ge", "C05", "last-owner test == 1 -> >= 1",
+  (MM, "        if (atomic_fetch_sub(&data->ref.hard, 1) == 1) {", "        if (atomic_fetch_sub(&data->ref.hard, 1) >= 1) {"), also=["C06"])
+M("c05-share-no-soft", "C05", "share forgets the reference-count increment",
+  (MM, "        atomic_fetch_add(&data->ref.hard, 1);\n        atomic_fetch_add(&data->ref.soft, 1);\n    }\n}\n\nvoid cstl_shared_ptr_reset", "        atomic_fetch_add(&data->ref.hard, 1);\n    }\n}\n\nvoid cstl_shared_ptr_reset"), also=["C06"])
+M("c05-weak-reset-zero", "C05", "weak_ptr_reset frees on == 0 (never)",
+  (MM, "        if (atomic_fetch_sub(&data->ref.soft, 1) == 1) {\n            free(data);", "        if (atomic_fetch_sub(&data->ref.soft, 1) == 0) {\n            free(data);"), also=["C06"])
+M("c05-unique-swap-no-clr", "C05", "unique_ptr_swap swaps the pointer but not the callback pair",
+  (MH, "    cstl_guarded_ptr_swap(&up1->gp, &up2->gp);\n    cstl_swap(&up1->clr, &up2->clr, t, sizeof(t));", "    cstl_guarded_ptr_swap(&up1->gp, &up2->gp);\n    (void)t;"))
+M("c05-alloc-fail-leak", "C05", "shared_ptr_alloc failure path does not free the bookkeeping block",
+  (MM, "                data = NULL;\n            }\n\n            free(data);", "                data = NULL;\n            }\n"), also=["C16"])
+M("c05-lock-no-undo", "C05", "failed lock does not undo the owner increment",
+  (MM, "            atomic_fetch_sub(&data->ref.hard, 1);\n            cstl_guarded_ptr_set(&sp->data, NULL);", "            cstl_guarded_ptr_set(&sp->data, NULL);"), also=["C06"])
+M("c05-lock-no-soft", "C05", "successful lock forgets the reference increment",
+  (MM, "            atomic_fetch_add(&data->ref.soft, 1);\n        } else {", "        } else {"), also=["C06"])
+M("c05-clear-after-free", "C05", "unique reset frees before calling the clear callback",
+  (MM, "    if (up->clr.func != NULL) {\n        up->clr.func(ptr, up->clr.priv);\n    }\n    free(ptr);", "    free(ptr);\n    if (up->clr.func != NULL) {\n        up->clr.func(ptr, up->clr.priv);\n    }"))
+M("c05-release-keeps-clr", "C05", "release reports a NULL callback when priv is not requested",
+  (MH, "    if (clr != NULL) {", "    if (clr != NULL && priv != NULL) {"))
+M("c05-share-same-block", "C05", "share into a pointer that already owns the same block skips the reset but still increments",
+  (MM, "    cstl_shared_ptr_reset(n);\n    cstl_guarded_ptr_copy(&n->data, &e->data);", "    if (cstl_guarded_ptr_get_const(&n->data) != cstl_guarded_ptr_get_const(&e->data)) {\n        cstl_shared_ptr_reset(n);\n    }\n    cstl_guarded_ptr_copy(&n->data, &e->data);"))
+# ----------------------------------------------------------------- C14
+AR = "src/array.c"
+M("c14-at-no-offset", "C14", "at ignores the view offset",
+  (AR, "        return __cstl_raw_array_at(ra->buf, ra->sz, a->off + i);", "        return __cstl_raw_array_at(ra->buf, ra->sz, i);"))
+M("c14-slice-share-first", "C14", "slice shares before checking bounds",
+  (AR, "    if (ra == NULL\n        || end < beg\n        || a->off > ra->nm\n        || end > ra->nm - a->off) {\n        abort();\n    }\n\n    s->off = a->off + beg;\n    s->len = end - beg;\n    if (a != s) {\n        cstl_shared_ptr_share(&a->ptr, &s->ptr);\n    }",
+   "    if (a != s && ra != NULL) {\n        cstl_shared_ptr_share(&a->ptr, &s->ptr);\n    }\n    if (ra == NULL\n        || end < beg\n        || a->off > ra->nm\n        || end > ra->nm - a->off) {\n        abort();\n    }\n\n    s->off = a->off + beg;\n    s->len = end - beg;"))
+M("c14-release-ignores-views", "C14", "release ignores other views",
+  (AR, "        && ra->buf != ra + 1\n        && cstl_shared_ptr_unique(&a->ptr)) {", "        && ra->buf != ra + 1) {"))
+M("c14-alloc-keeps-off", "C14", "alloc keeps the old offset again (the repaired defect)",
+  (AR, "    /* drop the old buffer *and* the old view of it */\n    cstl_array_reset(a);", "    cstl_shared_ptr_reset(&a->ptr);"), also=["C16"])
+M("c14-slice-end-len", "C14", "slice bound checked against the buffer size ignoring the offset",
+  (AR, "        || end > ra->nm - a->off) {", "        || end > ra->nm) {"))
+M("c14-unslice-keeps-off", "C14", "unslice keeps the offset",
+  (AR, "    a->off = 0;\n    a->len = ra->nm;", "    a->len = ra->nm;"))
+M("c14-release-internal", "C14", "release also hands out internal buffers",
+  (AR, "    if (ra != NULL\n        && ra->buf != ra + 1\n        && cstl_shared_ptr_unique(&a->ptr)) {", "    if (ra != NULL\n        && cstl_shared_ptr_unique(&a->ptr)) {"))
+M("c14-at-le", "C14", "at accepts index == size",
+  (AR, "    if (i >= a->len) {\n        abort();", "    if (i > a->len) {\n        abort();"))
+
 # ------------------------------------------------------- negative controls
 N("neg-vector-overallocate", ["C09", "C10"], "vector growth over-allocates",
   (VC, "    if (sz > v->cap) {\n        cstl_vector_set_capacity(v, sz);\n    }", "    if (sz > v->cap) {\n        cstl_vector_set_capacity(v, sz < 1000 ? sz + sz / 2 + 1 : sz);\n    }"))
